@@ -472,6 +472,7 @@ class _Tracker:
         self.branch = set()
         self.discr = {}
         self.discr_src = {}
+        self.payload_locals = set()     # bool locals that are the success payload of a member / branch result
 
     def _classify(self, rv):
         if rv[0] == 'use':
@@ -482,10 +483,18 @@ class _Tracker:
                 return 'S' if o[3] else 'F'
             return '?'
         if rv[0] == 'agg' and rv[1] == 'adt':
+            ok_variant = None
             if self.cls == 'result' and rv[2] == 'std::result::Result':
-                return 'S' if rv[3] == 0 else 'F'
+                ok_variant = rv[3] == 0
             if self.cls == 'option' and rv[2] == 'std::option::Option':
-                return 'S' if rv[3] == 1 else 'F'
+                ok_variant = rv[3] == 1
+            if ok_variant is True:
+                # a boolean payload given as a literal: `Ok(false)` / `Some(true)`
+                if rv[5] and rv[5][0][0] == 'const' and rv[5][0][2] == 'bool' and rv[5][0][3] is not None:
+                    return 'S:T' if rv[5][0][3] else 'S:F'
+                return 'S'
+            if ok_variant is False:
+                return 'F'
         return '?'
 
     def transfer(self, body, blk, val):
@@ -531,6 +540,17 @@ class _Tracker:
         sl = t[1][1][0]
         want = None
         kind = None
+        payload = None
+        if ':' in val:
+            val, payload = val.split(':', 1)
+        # the boolean payload of the success variant: `_p = ((_b as Continue).0)` / `((m as Ok).0)`; `switchInt(_p)`
+        if payload is not None and val == 'S' and sl in self.payload_locals:
+            want = 1 if payload == 'T' else 0
+            tgt = None
+            for vv, bb in t[2]:
+                if vv == want:
+                    tgt = bb
+            return tgt if tgt is not None else t[3]
         if sl in self.discr:
             kind = self.discr[sl]
         elif self.cls == 'bool' and sl in self.members:
@@ -638,6 +658,19 @@ def _build_trackers(body):
                 if not c.dest[1] and c.args and c.args[0][0] in ('copy', 'move') and not c.args[0][1][1] and c.args[0][1][0] in tr.members \
                         and any(n.endswith('::Try>::branch') or n.endswith('::Try::branch') for n in c.names()):
                     tr.branch.add(l)
+        for l, ds in defs_by.items():
+            if body.lty(l) == 'bool' and ds and all(d[0] == 'use' and d[1][0] in ('copy', 'move') and d[1][1][0] in (tr.members | tr.branch)
+                                                     and any(isinstance(pe, tuple) and pe[0] == 'd' for pe in d[1][1][1])
+                                                     and any(isinstance(pe, tuple) and pe[0] == 'f' for pe in d[1][1][1]) for d in ds):
+                tr.payload_locals.add(l)
+        grew = True
+        while grew:
+            grew = False
+            for l, ds in defs_by.items():
+                if l not in tr.payload_locals and body.lty(l) == 'bool' and ds and all(
+                        d[0] == 'use' and d[1][0] in ('copy', 'move') and not d[1][1][1] and d[1][1][0] in tr.payload_locals for d in ds):
+                    tr.payload_locals.add(l)
+                    grew = True
         for l, ds in defs_by.items():
             if len(ds) == 1 and ds[0][0] == 'discr' and not ds[0][1][1]:
                 if ds[0][1][0] in tr.members:
